@@ -26,6 +26,10 @@ inductive DVal where
   | rgbw (r g b w : BitVec 8) (rv gv bv wv : Bool)
   deriving DecidableEq, Repr, Inhabited
 
+/-- big-endian 32-bit value (`binary.BigEndian.Uint32`) -/
+def be32 (a b c d : Byte) : BitVec 32 :=
+  BitVec.ofNat 32 (a.toNat * 16777216 + b.toNat * 65536 + c.toNat * 256 + d.toNat)
+
 def Lit.f32 (l : Lit) : F32 := F32.ofLit l.num l.den
 
 /-! ### formats.go -/
@@ -41,7 +45,7 @@ def minInt64 : Int := -9223372036854775808
 /-- `int64(math.Round(float64(f) * 100))`; the conversion of NaN / out-of-range is what amd64 does -/
 def scaledRound (f : F32) (k : Nat) : Int :=
   match f with
-  | .fin q => roundHalfAway (toF64 (q * (k : Rat)))
+  | .fin q => Dy.roundHalfAway (toF64 (q.mul (Dy.ofInt k)))
   | _ => minInt64
 
 /-- the mantissa-reduction loop of `packF16` (after the fix): smallest `exp` with the rounded
@@ -79,14 +83,14 @@ def unpackF16 (data : List Byte) : R F32 :=
 /-- float → uint8 conversion of a value already known to be in range; NaN gives 0 on amd64 -/
 def toU8 (f : F32) : Byte :=
   match f with
-  | .fin q => BitVec.ofInt 8 (trunc q)
+  | .fin q => BitVec.ofInt 8 (Dy.trunc q)
   | _ => 0
 
 /-- `roundV16(f, scale)` -/
 def roundV16 (f : F32) (k : Nat) : BitVec 16 :=
   match f with
   | .fin q =>
-    let v := roundHalfAway (toF64 (q * (k : Rat)))
+    let v := Dy.roundHalfAway (toF64 (q.mul (Dy.ofInt k)))
     if v ≥ 32767 then 32767 else if v ≤ -32768 then BitVec.ofInt 16 (-32768) else BitVec.ofInt 16 v
   | .inf false => 32767
   | .inf true => BitVec.ofInt 16 (-32768)
@@ -112,6 +116,17 @@ def timeValid (wd h m s : BitVec 8) : Bool :=
   decide (wd.toNat ≤ 7) && decide (h.toNat ≤ 23) && decide (m.toNat ≤ 59) && decide (s.toNat ≤ 59)
 
 /-! ### decoders -/
+
+/-- the field logic of `DPT_11001.Unpack` after masking: year > 99 is rejected, the all-zero
+    payload stands for 1990-01-01, years 90..99 are 19xx, 0..89 are 20xx, then `IsValid` -/
+def decodeDateFields (d0 m0 y0 : Nat) : R DVal :=
+  if y0 > 99 then .err else
+  let z := decide (y0 = 0 ∧ m0 = 0 ∧ d0 = 0)
+  let y1 := if z then 90 else y0
+  let m := if z then 1 else m0
+  let d := if z then 1 else d0
+  let y := if y1 ≥ 90 then y1 + 1900 else y1 + 2000
+  if dateValid y m d then .ok (.date (BitVec.ofNat 16 y) (BitVec.ofNat 8 m) (BitVec.ofNat 8 d)) else .err
 
 def byteAt (data : List Byte) (i : Nat) : R Byte :=
   match data[i]? with
@@ -142,13 +157,13 @@ def decode (s : Shape) (data : List Byte) : R DVal :=
       pure (.i16 (be16 a b))
   | .u32 => if data.length ≠ 5 then .err else do
       let a ← byteAt data 1; let b ← byteAt data 2; let c ← byteAt data 3; let d ← byteAt data 4
-      pure (.u32 (a ++ b ++ c ++ d))
+      pure (.u32 (be32 a b c d))
   | .v32 => if data.length ≠ 5 then .err else do
       let a ← byteAt data 1; let b ← byteAt data 2; let c ← byteAt data 3; let d ← byteAt data 4
-      pure (.i32 (a ++ b ++ c ++ d))
+      pure (.i32 (be32 a b c d))
   | .f32 => if data.length ≠ 5 then .err else do
       let a ← byteAt data 1; let b ← byteAt data 2; let c ← byteAt data 3; let d ← byteAt data 4
-      pure (.f32 (a ++ b ++ c ++ d))
+      pure (.f32 (be32 a b c d))
   | .f16 _ _ _ _ unLo unHi => do
       let v ← unpackF16 data
       if F32.lt v unLo.f32 || F32.lt unHi.f32 v then .err else pure (.flt v)
@@ -173,11 +188,7 @@ def decode (s : Shape) (data : List Byte) : R DVal :=
       if timeValid wd h m sec then pure (.time wd h m sec) else .err
   | .date => if data.length ≠ 4 then .err else do
       let b1 ← byteAt data 1; let b2 ← byteAt data 2; let b3 ← byteAt data 3
-      let d := (b1 &&& 0x1F).toNat; let m := (b2 &&& 0xF).toNat; let y := (b3 &&& 0x7F).toNat
-      if y > 99 then .err else
-      let (y, m, d) := if y = 0 ∧ m = 0 ∧ d = 0 then (90, 1, 1) else (y, m, d)
-      let y := if y ≥ 90 then y + 1900 else y + 2000
-      if dateValid y m d then pure (.date (BitVec.ofNat 16 y) (BitVec.ofNat 8 m) (BitVec.ofNat 8 d)) else .err
+      decodeDateFields (b1 &&& 0x1F).toNat (b2 &&& 0xF).toNat (b3 &&& 0x7F).toNat
   | .strAscii => if data.length ≠ 15 then .err else pure (.str (strLoop 0x7F (data.drop 1)))
   | .strLatin1 => if data.length ≠ 15 then .err else pure (.str (strLoop 0xFF (data.drop 1)))
   | .varstr => if data.length < 2 then .err else
@@ -206,7 +217,8 @@ def decode (s : Shape) (data : List Byte) : R DVal :=
 def b2n (b : Bool) : Nat := if b then 1 else 0
 
 def bytes32 (x : BitVec 32) : List Byte :=
-  [x.extractLsb' 24 8, x.extractLsb' 16 8, x.extractLsb' 8 8, x.extractLsb' 0 8]
+  [BitVec.ofNat 8 (x.toNat / 16777216), BitVec.ofNat 8 (x.toNat / 65536 % 256),
+   BitVec.ofNat 8 (x.toNat / 256 % 256), BitVec.ofNat 8 (x.toNat % 256)]
 
 /-- one character of the 16.xxx encoders -/
 def strChar (limit : Nat) (c : Nat) : Byte := if c > limit then 0x20 else BitVec.ofNat 8 c
@@ -226,10 +238,10 @@ def encode (s : Shape) (v : DVal) : Option (List Byte) :=
     some (if F32.le d lo.f32 then packF16 loVal.f32
           else if F32.le hi.f32 d then packF16 hiVal.f32 else packF16 d)
   | .scaled, .flt d =>
-    some (if F32.le d (.fin 0) then [0, 0] else if F32.le (F32.ofInt 100) d then [0, 255]
+    some (if F32.le d F32.zero then [0, 0] else if F32.le (F32.ofInt 100) d then [0, 255]
           else [0, toU8 ((d.mul c255).add cHalf)])
   | .angle, .flt d =>
-    some (if F32.le d (.fin 0) then [0, 0] else if F32.le (F32.ofInt 360) d then [0, 255]
+    some (if F32.le d F32.zero then [0, 0] else if F32.le (F32.ofInt 360) d then [0, 255]
           else [0, toU8 (((d.mul (F32.ofInt 255)).div (F32.ofInt 360)).add cHalf)])
   | .scene17, .u8 x => some [0, if x.toNat > 63 then 63 else x]
   | .scene18, .u8 x => some [0, if x.toNat ≤ 63 ∨ (x.toNat ≥ 128 ∧ x.toNat ≤ 191) then x else 63]
